@@ -24,10 +24,12 @@ class NormalizationAnalyzer(BaseAnalyzer):
     def percent_change(self):
         return ts.TimeSeries(tsu.percent_change(self.input.data),
                              sampling_rate=self.input.sampling_rate,
-                             time_unit=self.input.time_unit)
+                             time_unit=self.input.time_unit,
+                             t0=self.input.t0)
 
     @desc.setattr_on_read
     def z_score(self):
         return ts.TimeSeries(tsu.zscore(self.input.data),
                              sampling_rate=self.input.sampling_rate,
-                             time_unit=self.input.time_unit)
+                             time_unit=self.input.time_unit,
+                             t0=self.input.t0)
